@@ -191,7 +191,7 @@ class Check:
                         'payload and every guard result are solver variables; a query is non-trivial iff its -DWITNESS assert(0) at the end of the harness is reported reachable',
                 'samples': samples,
                 'exhaustive': False,
-                'programs': sorted(set(u.name for u in s.units)),
+                'programs': len(set(u.name for u in s.units)), 'program_names': sorted(set(u.name for u in s.units)),
                 'back_ends': sorted(set(BE_NAMES[u.be] for u in s.units)),
                 'queries': len(s.jobs), 'queries_success': sum(1 for j in s.jobs if j.res['verdict'] == 'success'),
                 'vccs_generated': vccs, 'vccs_after_simplification': vccs_rem,
